@@ -29,10 +29,9 @@ func OutputPermutationPart(run *report.Run, st *Setup, n int) {
 		var outs, writes, reads []string
 		for j := 1; j <= k; j++ {
 			name := fmt.Sprintf("o%d.txt", j)
-			writes = append(writes, fmt.Sprintf("sed -n %dp in.txt > %s", j, name))
-			reads = append(reads, fmt.Sprintf("echo %s=$(cat %s)", name, name))
+			writes = append(writes, fmt.Sprintf("sed -n %dp in.txt > %s; chmod -x %s; if grep -q '^%d$' x.txt; then chmod +x %s; fi", j, name, name, j, name))
+			reads = append(reads, fmt.Sprintf("echo %s=$(cat %s)$(if [ -x %s ]; then echo :x; fi)", name, name, name))
 			if j == k && binOut {
-				writes = append(writes, "chmod +x "+name)
 				continue
 			}
 			outs = append(outs, fmt.Sprintf("%q", name))
@@ -46,7 +45,7 @@ func OutputPermutationPart(run *report.Run, st *Setup, n int) {
 			tags = `,"tags":["no-cache"]`
 		}
 		build := fmt.Sprintf(`{"targets":[
- {"name":"gen","inputs":["in.txt"],"command":"%s; echo \"R $VBUILD gen\" >> \"$VTRACE\"","outputs":[%s]%s%s},
+ {"name":"gen","inputs":["in.txt","x.txt"],"command":"%s; echo \"R $VBUILD gen\" >> \"$VTRACE\"","outputs":[%s]%s%s},
  {"name":"rep","dependencies":[":gen"],"inputs":["rep.cfg"],"command":"(%s) > rep.out; echo \"R $VBUILD rep\" >> \"$VTRACE\"","outputs":["rep.out"]}
 ]}`, strings.Join(writes, "; "), strings.Join(outs, ","), extra, tags, strings.Join(reads, "; "))
 		base := filepath.Join(st.Base, fmt.Sprintf("op%d", i))
@@ -73,6 +72,10 @@ func OutputPermutationPart(run *report.Run, st *Setup, n int) {
 		_ = os.WriteFile(filepath.Join(ws, "pkg", "rep.cfg"), []byte("cfg 1\n"), 0644)
 		words := []string{"alpha", "beta", "gamma", "delta", "eps"}
 		lines := append([]string{}, words[:k]...)
+		execs := map[int]bool{} // outputs (1-based) that are executable
+		if binOut {
+			execs[k] = true // a bin_output is made executable by grog in any case
+		}
 		var hist []string
 		steps := r.Range(5, 10)
 		var earlier [][]string
@@ -88,6 +91,14 @@ func OutputPermutationPart(run *report.Run, st *Setup, n int) {
 					lines[a], lines[b] = lines[b], lines[a]
 					op = fmt.Sprintf("outputs %d and %d exchange their contents", a+1, b+1)
 				case 3:
+					if r.Chance(1, 2) {
+						j := r.Range(1, k)
+						if !(binOut && j == k) {
+							execs[j] = !execs[j]
+							op = fmt.Sprintf("executable bit of output %d flips (contents unchanged)", j)
+							break
+						}
+					}
 					lines[r.Intn(k)] = r.Word(3, 6)
 					op = "one line changed"
 				case 4:
@@ -103,6 +114,13 @@ func OutputPermutationPart(run *report.Run, st *Setup, n int) {
 			}
 			earlier = append(earlier, append([]string{}, lines...))
 			_ = os.WriteFile(filepath.Join(ws, "pkg", "in.txt"), []byte(strings.Join(lines, "\n")+"\n"), 0644)
+			var xs []string
+			for j := 1; j <= k; j++ {
+				if execs[j] && !(binOut && j == k) {
+					xs = append(xs, fmt.Sprint(j))
+				}
+			}
+			_ = os.WriteFile(filepath.Join(ws, "pkg", "x.txt"), []byte(strings.Join(xs, "\n")+"\n"), 0644)
 			args := []string{"build"}
 			if r.Chance(1, 6) {
 				args = append(args, "--enable-cache=false")
@@ -123,9 +141,16 @@ func OutputPermutationPart(run *report.Run, st *Setup, n int) {
 			if strings.Contains(op, "exchange") {
 				run.Count("outperm_builds_after_a_content_exchange", 1)
 			}
+			if strings.Contains(op, "executable bit") {
+				run.Count("outperm_builds_after_an_executable_bit_flip", 1)
+			}
 			var want []string
 			for j := 1; j <= k; j++ {
-				want = append(want, fmt.Sprintf("o%d.txt=%s", j, lines[j-1]))
+				w := fmt.Sprintf("o%d.txt=%s", j, lines[j-1])
+				if execs[j] {
+					w += ":x"
+				}
+				want = append(want, w)
 			}
 			if minimal && !ranRep {
 				continue // nothing of the consumer is materialised by this build
@@ -136,7 +161,7 @@ func OutputPermutationPart(run *report.Run, st *Setup, n int) {
 				if ranRep {
 					how = "executed"
 				}
-				keep = !run.Violation(fmt.Sprintf("outperm stale-consumer-output producer-no-cache=%v consumer=%s", noCache, strings.Fields(how)[0]),
+				keep = !run.Violation(fmt.Sprintf("outperm stale-consumer-output producer-no-cache=%v consumer=%s edit=%s", noCache, strings.Fields(how)[0], map[bool]string{true: "exec-bit", false: "contents"}[strings.Contains(op, "executable bit")]),
 					fmt.Sprintf("after %q the consumer (%s) has %q, a from-scratch build gives %q (producer no-cache: %v, bin_output: %v, load_outputs minimal: %v)", op, how,
 						strings.ReplaceAll(strings.TrimSpace(string(got)), "\n", " "), strings.Join(want, " "), noCache, binOut, minimal),
 					map[string]any{"history": hist, "build_file": build, "stdout": tail(res.Stdout, 1200)}) || keep
